@@ -189,6 +189,7 @@ pub fn list_string(vm: &mut Vm) -> Result<VCell, Error> {
     if !rest.is_pair() && !rest.is_nil() {
         return Err(Error::ExpectedPairButFound(vm.heap.get_as_cell(&rest)));
     }
+    let original = rest.clone();
     let mut s = String::new();
     while rest.is_pair() {
         match vm.heap.get(&rest.as_car()?) {
@@ -201,6 +202,12 @@ pub fn list_string(vm: &mut Vm) -> Result<VCell, Error> {
             }
         }
         rest = vm.heap.get(&rest.as_cdr()?);
+    }
+    if !rest.is_nil() {
+        return Err(InvalidSyntax(format!(
+            "{:#} is an improper list",
+            vm.heap.get_as_cell(&original)
+        )));
     }
     Ok(VCell::string(s))
 }
